@@ -1,0 +1,1 @@
+//! Verification hooks: `dial` (thin pass-through wrappers; feature `verif-hooks` only).
